@@ -23,6 +23,12 @@ FILE_KINDS = ["delete", "zero", "truncate", "garbage"]
 BREAKING = {("layout", "models_dropped"), ("layout", "models_wrong")} | {("file", k) for k in FILE_KINDS}
 SWAP = "index_swap_restart"   # rowids behind two keys of the primary-key index swapped, then a process restart
 DAY = 86400 * 10**6
+DAYS_COMMON = [0, 1, 1, 2, 30, 30, 30]
+# flag extremes.  On /repo HEAD the cut-off now - days*86400e6 is handed to SQLite as an INTEGER, so parse() is total
+# for |days| up to ~1.06e8 (int64 microseconds, ~292 000 years); beyond that sqlite3 raises OverflowError, from
+# 1e9 days on (and for inf/nan) datetime.timedelta itself raises - same on HEAD, mirrored: not generated.  Floats
+# are accepted by the API and generated.
+DAYS_EXTREME = [29, 31, 365, 10**4, 740000, 10**6, 10**7, 10**8, -1, -30, -10**6, -10**8, 0.5, 1e-9, 2.5, -0.5]
 KNOWN_TAG = "db-fault-after-init-same-process"
 
 
@@ -228,6 +234,16 @@ def gen_texts(rng):
     return out
 
 
+def _first_use(ops):
+    """no parse since the start of the process / the last restart: the next parse runs the once-per-process block"""
+    for o in reversed(ops):
+        if o[0] == "parse":
+            return False
+        if o[0] == "reload" or (o[0] == "file" and o[1] == SWAP):
+            return True
+    return True
+
+
 def gen_history(rng, texts, nops):
     nt = len(texts)
     ops = []
@@ -236,7 +252,9 @@ def gen_history(rng, texts, nops):
         x = rng.random()
         if x < 0.46 or not ops:
             ti = rng.choice(parsed) if parsed and rng.random() < 0.55 else rng.randrange(nt)
-            ops.append(["parse", ti, rng.choice([0, 1, 1, 2, 30, 30, 30]), int(rng.random() < 0.35)])
+            first_use = _first_use(ops)
+            days = rng.choice(DAYS_EXTREME) if rng.random() < (0.5 if first_use else 0.15) else rng.choice(DAYS_COMMON)
+            ops.append(["parse", ti, days, int(rng.random() < 0.35)])
             if ti not in parsed:
                 parsed.append(ti)
         elif x < 0.58:
@@ -275,6 +293,8 @@ def corpus(texts):
             hs.append([P(g), [fam, k], ["reload"], P(g), P(b), P(g)])
             hs.append([[fam, k], P(g), P(g)])
             hs.append([P(g), ["reload"], [fam, k], P(g2), P(g)])
+    for d in DAYS_EXTREME:      # extremes of cache_expiration_days on the first use in a process and after a reload
+        hs.append([P(g, d), P(g, d), P(b, d), ["reload"], P(g, d), ["advance", DAY], ["reload"], P(g2, d), P(g, d)])
     g3 = 2
     hs.append([P(g), P(g2), P(g3), ["file", SWAP], P(g2), P(g3), P(g)])
     hs.append([P(g), P(g2), P(g3), ["setver", 1, 0], P(g2), ["file", SWAP], P(g3), ["setver", 0, 0], P(g2), P(g3)])
@@ -346,6 +366,15 @@ def judge(case, res):
 # ---------------------------------------------------------------------------
 # Coq encoding
 # ---------------------------------------------------------------------------
+def exp_us(days):
+    """cache_expiration_days in microseconds: exact for integers of any size; a float goes through timedelta's own
+    rounding to microseconds, like in _microseconds_since_epoch"""
+    if isinstance(days, int):
+        return int(days) * DAY
+    from datetime import timedelta
+    return -int(timedelta(days=-days).total_seconds() * 1e6)
+
+
 def enc_exn(name):
     return name if name in EXN[:-1] else "OtherExn"
 
@@ -380,7 +409,7 @@ def encode_case(case, res):
         k = op[0]
         out = "ONone"
         if k == "parse":
-            ops.append("Parse %s %s %s" % (cq_nat(op[1]), cq_Z(op[2]), cq_bool(op[3])))
+            ops.append("Parse %s %s %s" % (cq_nat(op[1]), cq_Z(exp_us(op[2])), cq_bool(op[3])))
             o = ob["out"]
             if o == "tree":
                 out = "(OTree %s)" % cq_nat(op[1])
